@@ -7,6 +7,7 @@ shapes) -- fires for internal constructions too; (iii) membership predicates jud
 independent SVD distance to the group, outside a band only; (iv) scalar predicates against
 their definitions outside a 1e-6 band.
 """
+import itertools
 import math
 
 import numpy as np
@@ -99,10 +100,22 @@ def containers(form, good, bad, kind=None):
         if kind in ('se2', 'se3'):
             others = [g * (1 + (k % 7)) for k in range(n)]
         else:
-            others, x = [], g
+            # distinct members as valid as `good` itself: its columns permuted / negated by an exact quarter-turn frame (no rounding)
+            d_ = 2 if g.shape[0] == 2 or kind in ('SE2',) else 3
+            if d_ == 2:
+                frames = [np.array([[c_, -s_], [s_, c_]]) + 0.0 for c_, s_ in ((1.0, 0.0), (0.0, 1.0), (-1.0, 0.0), (0.0, -1.0))]
+            else:
+                frames = []
+                for perm in itertools.permutations(range(3)):
+                    for sg in itertools.product((1.0, -1.0), repeat=3):
+                        P_ = np.eye(3)[list(perm)] * np.array(sg)[:, None] + 0.0
+                        if np.linalg.det(P_) > 0:
+                            frames.append(P_)
+            others = []
             for k in range(n):
+                x = g.copy()
+                x[:d_, :d_] = g[:d_, :d_] @ frames[k % len(frames)]
                 others.append(x)
-                x = x @ g if k % 9 != 8 else g        # (powers of a member, restarted before rounding adds up)
         items = others[:pos] + [bad] + others[pos + 1:]
         return items if n % 2 == 0 else tuple(items)
     if form == 'bare':
